@@ -21,7 +21,7 @@ import (
 //	everything else                           -> the function's other properties
 func propertiesOf(spec *FuncSpec, f Fact) []string {
 	if strings.HasPrefix(f.Tag, "C") {
-		return []string{f.Tag}
+		return strings.Split(f.Tag, ",")
 	}
 	has := func(p string) bool {
 		for _, x := range spec.Properties {
@@ -54,6 +54,17 @@ func propertiesOf(spec *FuncSpec, f Fact) []string {
 	}
 	if len(out) == 0 {
 		out = spec.Properties
+	}
+	// Supporting obligations -- loop invariants, callee preconditions, hints, lemmas, panic freedom -- are what
+	// the frame / lock proofs of the same function stand on, so they also count for those properties; so do
+	// postconditions about freshness and aliasing of results (C16: results are fresh or declared views).
+	support := strings.Contains(f.Kind, ".inv[") || strings.HasPrefix(f.Kind, "call.") || strings.HasPrefix(f.Kind, "assert") ||
+		strings.Contains(f.Kind, "lemma") || strings.HasPrefix(f.Kind, "nopanic") || strings.HasPrefix(f.Kind, "panic.")
+	alias := strings.HasPrefix(f.Kind, "ensures") && (strings.Contains(f.Info, "fresh(") || strings.Contains(f.Info, "sarr(") || strings.Contains(f.Info, "unchanged("))
+	for _, p := range []string{"C16", "C01", "C02"} {
+		if has(p) && (support || (p == "C16" && alias)) {
+			out = append(out, p)
+		}
 	}
 	return out
 }
